@@ -18,8 +18,9 @@ TECHNIQUE = ('exhaustive enumeration of sub-jacobian declaration formats x wirin
 RULE = ('configurations = full product of the declaration formats of two components {dense, rows/cols, '
         'diagonal, coo, csr, csc} plus matrix-free on the dictionary side, x wiring {plain, permutation, '
         'repeated source entry, 2-D tuple, two-level promotion} x unit pair x hierarchy (1-deviation '
-        'ball around 2 bases) x every update history of length <= 2 (quick) / <= 3 (thorough) over {new '
-        'values, complex step on, complex step off}; non-trivial = history non-empty or a sparse '
+        'ball around 3 bases) x every update history of length <= 2 (quick) / <= 3 (thorough) over {new '
+        'values, complex step on, complex step off}; total Jacobian-vector products (fwd and rev) of every '
+        'assembled variant are also compared with the dictionary variant; non-trivial = history non-empty or a sparse '
         'format is used; evals = operator columns/rows applied')
 LEVEL_TEXT = ('All jacobian types see the same sub-jacobians; after every step of every update history '
               'the fwd operator, the transpose of the rev operator and todense() of each assembled '
@@ -37,10 +38,10 @@ JACS = ['dict', 'dense', 'csc', 'csr']
 OPS = ['newvals', 'cs_on', 'cs_off']
 
 DIMS = collections.OrderedDict([
-    ('wiring', ['plain', 'conn_list', 'conn_dup', 'conn_negstep', 'conn_2d_tuple', 'conn_2d_row',
-                'prom2']),
+    ('wiring', ['plain', 'conn_list', 'conn_dup', 'conn_dup_far', 'conn_negstep', 'conn_2d_tuple',
+                'conn_2d_row', 'prom2']),
     ('units', ['none', 'm_cm', 'degC_degF']),
-    ('hier', ['flat', 'allG', 'nest2']),
+    ('hier', ['flat', 'allG', 'nest2', 'cycG']),
     ('kinds', ['mix1', 'lin', 'allimp']),
     ('topo', ['chain', 'cycle_tail', 'fanin']),
 ])
@@ -81,9 +82,18 @@ def cases(tier, seed):
                 c = dict(base)
                 c.update(f1=f1, f2=f2, hist=list(h))
                 out.append(c)
+            # the same source entry repeated at non-adjacent positions of the input
+            for h in hists[:2]:
+                c = dict(base)
+                c.update(wiring='conn_dup_far', f1=f1, f2=f2, hist=list(h))
+                out.append(c)
     # 1-ball around two bases in the model dimensions, formats on the diagonal, short histories
     for b in (base, {'wiring': 'plain', 'units': 'none', 'hier': 'flat', 'kinds': 'mix1',
-                     'topo': 'cycle_tail'}):
+                     'topo': 'cycle_tail'},
+              # assembled jacobian owned by a subgroup and applied under two scopes (its own solver
+              # and the parent's block solver): implicit components with inputs from both sides
+              {'wiring': 'plain', 'units': 'none', 'hier': 'cycG', 'kinds': 'allimp',
+               'topo': 'cycle_tail'}):
         for var in explore.ball(DIMS, 1 if tier == 'quick' else 2, base=b):
             for f in ('rowcol', 'csc', 'coo'):
                 for h in hists[:4]:
@@ -151,6 +161,8 @@ def _make(c, jac):
     spec['force_alloc_complex'] = True
     g = spec['groups'].setdefault(spec['solver_group'], {})
     g['ln'] = 'Krylov'
+    # 1e-14 is at the round-off floor of gmres for these sizes (summation order differs per format)
+    g['ln_opts'] = {'atol': 1e-15, 'rtol': 1e-10}
     if jac == 'dict':
         g['no_assemble'] = True
     return spec
@@ -218,6 +230,27 @@ def check_case(c):
             for prob in probs.values():
                 with contextlib.redirect_stdout(buf), contextlib.redirect_stderr(buf):
                     prob.run_model()
+        # the operators as the linear solvers use them (scoped applies from parent solvers):
+        # Jacobian-vector products of the totals must not depend on the jacobian type
+        of = [r['name'] for r in spec0['responses']]
+        wrt = [d['name'] for d in spec0['dvs']]
+        jv = {}
+        for jac, prob in probs.items():
+            with contextlib.redirect_stdout(buf), contextlib.redirect_stderr(buf):
+                sf = {n: 0.5 + 0.25 * np.arange(np.size(prob.get_val(n))).reshape(
+                    np.shape(prob.get_val(n))) for n in wrt}
+                sr = {n: 0.5 + 0.25 * np.arange(np.size(prob.get_val(n))).reshape(
+                    np.shape(prob.get_val(n))) for n in of}
+                a = prob.compute_jacvec_product(of, wrt, 'fwd', sf, linearize=True)
+                b = prob.compute_jacvec_product(of, wrt, 'rev', sr, linearize=True)
+            jv[jac] = np.concatenate([np.ravel(a[n]) for n in of] + [np.ravel(b[n]) for n in wrt])
+            evals += 2
+        for jac in JACS[1:]:
+            d = float(np.max(np.abs(jv[jac] - jv['dict']), initial=0.0))
+            if not np.isfinite(d) or d > 1e-7 * max(1.0, float(np.max(np.abs(jv['dict']),
+                                                                     initial=0.0))):
+                V('jacvec_' + jac, 'after %s: total jacobian-vector products differ from the '
+                  'dictionary-jacobian model by %.3e' % (step, d))
         U = ir.gather_U(probs['dict'], ref).real
         Mref = _ref_operator(ref, U)
         scale = max(1.0, float(np.max(np.abs(Mref))))
